@@ -12,6 +12,7 @@ import Driver.Visit
 import Driver.ParseStep
 import Driver.ParseWf
 import Driver.Cron
+import Driver.Print
 
 def dispatch (line : String) : String :=
   match (line.trimAscii.toString.splitOn " ").filter (· ≠ "") with
@@ -42,6 +43,7 @@ def dispatch (line : String) : String :=
   | "indicator" :: args => Driver.RenderD.handleIndicator args
   | "jsonenc" :: args => Driver.RenderD.handleJsonEnc args
   | "escape" :: args => Driver.RenderD.handleEscape args
+  | "pretty" :: args => Driver.PrintD.handlePretty args
   | "cron" :: args => Driver.CronD.handle args
   | "sanitize" :: args => Driver.RenderD.handleSanitize args
   | "exproffsets" :: args => Driver.RenderD.handleExprOffsets args
